@@ -652,16 +652,16 @@ Qed.
 (* main result: under the precondition the tool computes THE stable sort      *)
 (* ------------------------------------------------------------------------ *)
 
-Theorem winsort_is_ssort n evs : pre n evs -> evs <> [] -> winsort n evs = Some (ssort evs).
+Theorem winsort_is_ssort n evs : pre n evs -> winsort n evs = Some (ssort evs).
 Proof.
-  unfold pre, preb. intros P Ne.
+  unfold pre, preb. intros P.
   destruct (prun n pinit evs) as [p|] eqn:R; [|discriminate].
   destruct (p_mode p) eqn:Md; [|discriminate].
   destruct (sim_run _ _ _ _ _ sim_init R) as (w & Hw & (_ & _ & M)).
   rewrite Md in M. destruct M as [_ Wrd].
   pose proof (prun_flat _ _ _ _ R) as Fl. unfold flat in Fl. rewrite Md in Fl. cbn in Fl.
   rewrite app_nil_r in Fl.
-  unfold winsort. destruct evs as [|e t]; [congruence|].
+  unfold winsort. destruct evs as [|e t]; [reflexivity|].
   rewrite Hw, Wrd, rev_involutive, Fl. reflexivity.
 Qed.
 
@@ -689,9 +689,9 @@ Proof.
   - apply ssort_length.
 Qed.
 
-Lemma check_mode_sorted l : l <> [] -> sorted l -> check_mode l = true.
+Lemma check_mode_sorted l : sorted l -> check_mode l = true.
 Proof.
-  destruct l as [|a t]; [congruence|]. intros _ S. inversion S; subst. cbn.
+  destruct l as [|a t]; [reflexivity|]. intros S. inversion S; subst. cbn.
   apply sorted_from_true; auto.
 Qed.
 
@@ -701,22 +701,18 @@ Proof.
   destruct (sorted_from_sound _ _ H) as [F S]. constructor; auto.
 Qed.
 
-(* depends on [empty_stream_check] *)
-Lemma check_mode_nonempty l : check_mode l = true -> l <> [].
-Proof. destruct l; [discriminate | discriminate]. Qed.
-
 Lemma loader_accepts_sorted l : sorted l -> allok l -> loader_accepts l = true.
 Proof. intros S Ok. apply loader_from_true; auto. now apply allok_nonneg. Qed.
 
-Theorem winsort_succeeds n evs : pre n evs -> evs <> [] -> exists out, winsort n evs = Some out.
-Proof. intros P Ne. eexists. apply winsort_is_ssort; auto. Qed.
+Theorem winsort_succeeds n evs : pre n evs -> exists out, winsort n evs = Some out.
+Proof. intros P. eexists. apply winsort_is_ssort; auto. Qed.
 
-Theorem winsort_post n evs out : pre n evs -> evs <> [] -> winsort n evs = Some out ->
+Theorem winsort_post n evs out : pre n evs -> winsort n evs = Some out ->
   Permutation evs out /\ sorted out /\ stable evs out /\ prefix_untouched evs out /\
   length out = length evs /\ total_size out = total_size evs /\
   check_mode out = true /\ loader_accepts out = true.
 Proof.
-  intros P Ne H. rewrite (winsort_is_ssort _ _ P Ne) in H. inversion H; subst out; clear H.
+  intros P H. rewrite (winsort_is_ssort _ _ P) in H. inversion H; subst out; clear H.
   repeat split.
   - apply ssort_perm.
   - apply ssort_sorted.
@@ -724,8 +720,7 @@ Proof.
   - apply ssort_prefix_untouched.
   - apply ssort_length.
   - symmetry. apply total_size_perm, ssort_perm.
-  - apply check_mode_sorted; [|apply ssort_sorted].
-    intros E. apply Ne. apply Permutation_nil. rewrite <- E. apply Permutation_sym, ssort_perm.
+  - apply check_mode_sorted, ssort_sorted.
   - apply loader_accepts_sorted; [apply ssort_sorted|].
     eapply allok_perm; [apply ssort_perm | eapply pre_allok; eauto].
 Qed.
@@ -822,19 +817,17 @@ Proof.
 Qed.
 
 (* second run: never changes a byte; succeeds whenever the output still meets the precondition *)
-Theorem winsort_idempotent_partial n evs out : pre n evs -> evs <> [] -> winsort n evs = Some out ->
+Theorem winsort_idempotent_partial n evs out : pre n evs -> winsort n evs = Some out ->
   (winsort n out = Some out \/ winsort n out = None) /\
   (pre n out -> winsort n out = Some out).
 Proof.
-  intros P Ne H.
-  destruct (winsort_post _ _ _ P Ne H) as (Pm & S & _).
+  intros P H.
+  destruct (winsort_post _ _ _ P H) as (Pm & S & _).
   assert (Ok : allok out) by (eapply allok_perm; [exact Pm | eapply pre_allok; eauto]).
   split.
   - destruct (winsort n out) as [o2|] eqn:E; auto. left. f_equal.
     eapply winsort_sorted_input; eauto.
-  - intros P2. rewrite (winsort_is_ssort _ _ P2).
-    + now rewrite (ssort_id _ S).
-    + intros ->. apply Ne. apply Permutation_nil. now apply Permutation_sym.
+  - intros P2. rewrite (winsort_is_ssort _ _ P2). now rewrite (ssort_id _ S).
 Qed.
 
 (* ------------------------------------------------------------------------ *)
@@ -859,9 +852,6 @@ Proof.
   rewrite (exec_plan_fails n (p_before p) s (b :: rb')); auto.
   rewrite Hs; auto.
 Qed.
-
-Theorem winsort_empty_stream n : winsort n [] = None /\ check_mode [] = false.
-Proof. split; reflexivity. Qed.
 
 Theorem pre_empty n : pre n [].
 Proof. reflexivity. Qed.
@@ -964,10 +954,10 @@ Proof.
   rewrite <- app_assoc. reflexivity.
 Qed.
 
-Theorem winsort_no_region n evs : evs <> [] ->
+Theorem winsort_no_region n evs :
   Forall (fun e => starts_unsorted_region e = false) evs -> winsort n evs = Some evs.
 Proof.
-  intros Ne F. unfold winsort. destruct evs as [|e t]; [congruence|].
+  intros F. unfold winsort. destruct evs as [|e t]; [reflexivity|].
   unfold winit. rewrite wrun_no_region by auto. cbn [w_rd]. rewrite app_nil_r, rev_involutive. reflexivity.
 Qed.
 
@@ -975,11 +965,8 @@ Theorem min_clock_spec l : l <> [] ->
   Forall (fun e => min_clock l <= clock e) l /\ exists e, In e l /\ clock e = min_clock l.
 Proof. intros H. split; [apply min_clock_le | now apply min_clock_in]. Qed.
 
-Theorem check_mode_iff l : check_mode l = true <-> (l <> [] /\ sorted l).
-Proof.
-  split; [intros H; split; [now apply check_mode_nonempty | now apply check_mode_sound]
-        | intros [? ?]; now apply check_mode_sorted].
-Qed.
+Theorem check_mode_iff l : check_mode l = true <-> sorted l.
+Proof. split; [apply check_mode_sound | apply check_mode_sorted]. Qed.
 
 (* ------------------------------------------------------------------------ *)
 (* refutations (findings) and non-vacuity                                     *)
@@ -1011,12 +998,6 @@ Proof.
   split; [|vm_compute; reflexivity].
   apply (check_mode_sound idem_sorted eq_refl).
 Qed.
-
-(* FULL STATEMENT: forall n evs, pre n evs -> exists out, winsort n evs = Some out.
-   FALSE for the stream without events (nothing is out of order, yet both modes fail). *)
-Theorem winsort_succeeds_refuted_empty :
-  exists n evs, pre n evs /\ winsort n evs = None /\ check_mode evs = false.
-Proof. exists 5%nat, []. repeat split. Qed.
 
 (* non-vacuity: three regions (one empty, one internally unordered with equal
    clocks and a jumbo event, one reaching the start of the stream through equal
